@@ -47,18 +47,16 @@ def get_periods(start_date: datetime,
             raise ValueError("'start_date' must be less than 'end_date' if 'delta' is positive")
 
     tdelta = period_map[period](delta)
+    # the next boundary is only computed once it is known to lie within the range, so that a range
+    # touching datetime.min / datetime.max does not overflow
     if delta > 0:
         dates = [start_date]
-        cur_date = start_date + tdelta
-        while cur_date <= end_date:
-            dates.append(cur_date)
-            cur_date += tdelta
+        while end_date - dates[-1] >= tdelta:
+            dates.append(dates[-1] + tdelta)
     else:
         dates = [start_date]
-        cur_date = start_date + tdelta
-        while cur_date >= end_date:
-            dates.append(cur_date)
-            cur_date += tdelta
+        while end_date - dates[-1] <= tdelta:
+            dates.append(dates[-1] + tdelta)
     return dates
 
 
